@@ -56,7 +56,9 @@ for nm in ("duration_parse", "as_duration", "duration_calc", "combine_durations"
 add(H("REPLAY", "m_replay_expression", "verif_k::c02::m_replay_expression", "", kani=False))
 add(H("REPLAY", "m_probe_all", "verif_k::c10::m_probe_all", "", kani=False))
 add(H("REPLAY", "m_replay_unit_calc", "verif_k::c12::m_replay_unit_calc", "", kani=False))
+add(H("REPLAY", "m_replay_format_number", "verif_k::c12::m_replay_format_number", "", kani=False))
 add(H("REPLAY", "d_dump_units", "verif_k::c12::d_dump_units", "", kani=False))
+add(H("REPLAY", "k_replay_set_text_lines", "verif_k::c04::k_replay_set_text_lines", "", kani=False))
 add(H("REPLAY", "k_replay_registration", "verif_k::c04::k_replay_registration", "", kani=False))
 add(H("REPLAY", "k_replay_api_rule", "verif_k::c04::k_replay_api_rule", "", kani=False))
 add(H("REPLAY", "k_replay_session_reuse", "verif_k::c04::k_replay_session_reuse", "", kani=False))
